@@ -132,8 +132,11 @@ func genTemplate(c *fw.Ctx, k int) string {
 		}
 		n = g.Expr(gt.TBool, 2)
 	case 3: // map key and value, index
-		if k > 1 {
+		if k > 1 && c.Rng.IntN(2) == 0 {
 			return "{hole0: hole1}[hole0]"
+		}
+		if k > 0 { // the same parameter as key of several pairs: still one pair (and one evaluation of its value) per pair written
+			return []string{"{hole0: println(\"a\"), hole0: println(\"b\")}", "{hole0: 1, hole0: 2}", "len({hole0: hole0, hole0: 2, 5: hole0})", "[{hole0: 1, hole0: println(\"c\")}, hole0]"}[c.Rng.IntN(4)]
 		}
 		n = g.Expr(gt.TArr, 2)
 	case 4: // nested function literal
@@ -209,6 +212,21 @@ func (p c13) session(c *fw.Ctx) (inputs, expected []string, calls int) {
 		return m.name + "(" + strings.Join(args, ", ") + ")", m.subst(eargs)
 	}
 	for in := 0; in < nIn; in++ {
+		// a macro defined in an earlier input is defined again (another template, possibly other parameters) at the start of
+		// this one: every later call site expands to the new template
+		if in > 0 && defined > 0 && r.IntN(3) == 0 {
+			j := r.IntN(defined)
+			k := r.IntN(5)
+			if r.IntN(2) == 0 {
+				k = len(macros[j].params)
+			}
+			ps := make([]string, k)
+			for q := range ps {
+				ps[q] = fmt.Sprintf("q%d", q)
+			}
+			macros[j] = c13Macro{name: macros[j].name, params: ps, tmpl: genTemplate(c, k)}
+			curIn = append(curIn, macros[j].def())
+		}
 		// define some macros at the start of this input (always at least the first one in input 0)
 		for defined < nm && (defined == 0 || r.IntN(2) == 0) {
 			curIn = append(curIn, macros[defined].def())
